@@ -110,12 +110,13 @@ def mk_task(tid, dur=2, preds=None, io=None, flops=0, data=0, machine_id=None, e
 
 
 # pool codes used by "cluster in a symbolic state" harnesses
-AVAILABLE, INGEST, OCCUPIED, RES_A, RES_B = 0, 1, 2, 3, 4
+AVAILABLE, INGEST, OCCUPIED, RES_A, RES_B, RES_A_BUSY = 0, 1, 2, 3, 4, 5
 
 
 def cluster_in_state(pools, n=None, cpus=None, bws=None, busy_dur=3):
     """Real Cluster driven by a *prelude* into the state where machine i is in pool pools[i]
-    (0 available, 1 running ingest, 2 running a workflow task, 3 reserved-idle for 'A', 4 reserved-idle for 'B').
+    (0 available, 1 running ingest, 2 running a workflow task, 3 reserved-idle for 'A', 4 reserved-idle for 'B',
+    5 running a task of A on a machine of A's reservation).
     The state is produced by the real API (provision_ingest_resources / allocate_task_to_cluster /
     _add_idle_resource), so suspended generators and counters are consistent with it."""
     n = n or len(pools)
@@ -123,16 +124,17 @@ def cluster_in_state(pools, n=None, cpus=None, bws=None, busy_dur=3):
     drain(env)
     # order: reservations first, then workflow tasks, then ingest (ingest takes available[:demand] in list order)
     for i in range(n):
-        if pools[i] == RES_A:
+        if pools[i] == RES_A or pools[i] == RES_A_BUSY:
             c._add_idle_resource('A', c.machines[i])
         elif pools[i] == RES_B:
             c._add_idle_resource('B', c.machines[i])
     c.num_provisioned_obs = len(c._resources['idle'])
     for i in range(n):
-        if pools[i] == OCCUPIED:
+        if pools[i] == OCCUPIED or pools[i] == RES_A_BUSY:
             t = mk_task(f"pre_{i}", busy_dur)
             t.task_status = TaskStatus.SCHEDULED
-            env.process(c.allocate_task_to_cluster(t, c.machines[i], None, None))
+            # code 5: a task of workflow A running on a machine taken from A's own reservation
+            env.process(c.allocate_task_to_cluster(t, c.machines[i], None, 'A' if pools[i] == RES_A_BUSY else None))
     drain(env)
     ing = [i for i in range(n) if pools[i] == INGEST]
     if ing:
